@@ -171,10 +171,10 @@ func runC14(c *core.Ctx) error {
 		}
 		r.NL = map[string]string{"lf": "\n", "crlf": "\r\n", "cr": "\r"}[raw["nl"].(string)]
 		layouts = append(layouts, model.Layout{NL: r.NL, Multi: int(raw["multi"].(float64)), Quote: int(raw["quote"].(float64)), Pad: int(raw["pad"].(float64)),
-			Comments: int(raw["comments"].(float64)), LeadBlank: int(raw["lead_blank"].(float64)), TailBlank: int(raw["tail_blank"].(float64))})
+			Comments: int(raw["comments"].(float64)), Split: int(raw["split"].(float64)), LeadBlank: int(raw["lead_blank"].(float64)), TailBlank: int(raw["tail_blank"].(float64))})
 	}
-	if len(layouts) != 4500 {
-		return fmt.Errorf("expected 4500 layouts, TLC emitted %d", len(layouts))
+	if len(layouts) != 13500 {
+		return fmt.Errorf("expected 13500 layouts, TLC emitted %d", len(layouts))
 	}
 	ps, err := stProjects(c, "SchemaText_quick.cfg", "")
 	if err != nil {
@@ -213,7 +213,7 @@ func runC14(c *core.Ctx) error {
 	c.Set("layouts", len(layouts))
 	c.Set("layouts_per_project", per)
 	c.Sample(layouts[len(layouts)/3].Print(ps[len(ps)/3]))
-	c.Set("rule", "every project of SchemaText.tla printed under the plain layout and under a seeded sample of the 4500 layouts of Layout.tla (line ends x annotation style x quoted names x padding x user comments x leading/trailing blank lines): verdict + code, AST (notes modulo blank runs), example, used types and OpenAPI JSON equal; every schema-like literal of the repository's tests under newline-style, blank-line and trailing-blank transformations. distinct_nontrivial = distinct (project, layout) pairs")
+	c.Set("rule", "every project of SchemaText.tla printed under the plain layout and under a seeded sample of the 13500 layouts of Layout.tla (line ends x annotation style x quoted names x padding x user comments x leading/trailing blank lines): verdict + code, AST (notes modulo blank runs), example, used types and OpenAPI JSON equal; every schema-like literal of the repository's tests under newline-style, blank-line and trailing-blank transformations. distinct_nontrivial = distinct (project, layout) pairs")
 	return nil
 }
 
